@@ -219,14 +219,27 @@ def _():
     return (["CAAA", "CA1A", "CAAK"],), {}
 
 
-@spec("symdeldb_lookup", NN + "SymdelDB", lambda db: sorted_triplets(db.lookup(list(SEQS2))))
+@spec("symdeldb_lookup", NN + "SymdelDB", sorted_triplets)
 def _():
-    return (list(SEQS), 1), {}
+    return (list(SEQS), 1), {}, "lookup", (list(SEQS2),), {}
 
 
-@spec("lookupdb_lookup", NN + "LookupDB", lambda db: sorted_triplets(db.lookup(list(SEQS2), max_edits=1)))
+@spec("symdeldb_lookup_custom_ndarray", NN + "SymdelDB")
 def _():
-    return (list(SEQS),), {}
+    import pandas as pd
+    return (pd.Series(SEQS, index=range(3, 3 + len(SEQS))), 2), {}, "lookup", (pd.Series(SEQS2, index=list("wxyz")),), \
+        {"custom_distance": D.halflev, "max_custom_distance": 1.0, "output_type": "ndarray"}
+
+
+@spec("lookupdb_lookup", NN + "LookupDB", sorted_triplets)
+def _():
+    return (list(SEQS),), {}, "lookup", (list(SEQS2),), {"max_edits": 1}
+
+
+@spec("lookupdb_lookup_hamming_coo", NN + "LookupDB")
+def _():
+    import numpy as np
+    return (np.array(SEQS),), {}, "lookup", (np.array(SEQS2),), {"max_edits": 2, "custom_distance": "hamming", "output_type": "coo_matrix"}
 
 
 @spec("search_invalid_empty", NN + "symdel")
@@ -498,42 +511,42 @@ def _():
 
 
 # ---------------------------------------------------------------- metric ------------------
-@spec("levenshtein_cdist", "pyrepseq.metric:Levenshtein", lambda m: canon(m.calc_cdist_matrix(list(SEQS[:4]), list(SEQS2))))
+@spec("levenshtein_cdist", "pyrepseq.metric:Levenshtein")
 def _():
-    return (), {}
+    import pandas as pd
+    return (), {}, "calc_cdist_matrix", (list(SEQS[:4]), pd.Series(SEQS2, index=[9, 8, 7, 6])), {}
 
 
-@spec("weighted_levenshtein_pdist", "pyrepseq.metric:WeightedLevenshtein", lambda m: canon(m.calc_pdist_vector(list(SEQS))))
+@spec("weighted_levenshtein_pdist", "pyrepseq.metric:WeightedLevenshtein")
 def _():
-    return (), {"insertion_weight": 2, "deletion_weight": 5, "substitution_weight": 3}
+    import numpy as np
+    return (), {"insertion_weight": 2, "deletion_weight": 5, "substitution_weight": 3}, "calc_pdist_vector", (np.array(SEQS),), {}
 
 
-@spec("cdr3_levenshtein", "pyrepseq.metric.tcr_metric:Cdr3Levenshtein", lambda m: canon(m.calc_cdist_matrix(_tcr_df(), _tcr_df(TCR_ROWS[:3]))))
+@spec("cdr3_levenshtein", "pyrepseq.metric.tcr_metric:Cdr3Levenshtein")
 def _():
-    return (), {"alpha_weight": 2, "beta_weight": 3}
+    return (), {"alpha_weight": 2, "beta_weight": 3}, "calc_cdist_matrix", (_tcr_df(), _tcr_df(TCR_ROWS[:3])), {}
 
 
-@spec("cdr_levenshtein_tables", "pyrepseq.metric.tcr_metric:CdrLevenshtein", None)
+@spec("cdr_levenshtein_tables", "pyrepseq.metric.tcr_metric:CdrLevenshtein")
 def _():
-    return (), {"cdr1_weight": 2, "cdr2_weight": 3, "insertion_weight": 2}
+    return (), {"cdr1_weight": 2, "cdr2_weight": 3, "insertion_weight": 2}, "calc_cdist_matrix", (_tcr_df(), _tcr_df(TCR_ROWS[1:4], index=[9, 8, 7])), {}
 
 
-@spec("alpha_cdr_levenshtein_pdist", "pyrepseq.metric.tcr_metric:AlphaCdrLevenshtein",
-      lambda m: canon(m.calc_pdist_vector(_tcr_df(index=["q", "r", "s", "t", "u"]))))
+@spec("alpha_cdr_levenshtein_pdist", "pyrepseq.metric.tcr_metric:AlphaCdrLevenshtein")
 def _():
-    return (), {}
+    return (), {}, "calc_pdist_vector", (_tcr_df(index=["q", "r", "s", "t", "u"]),), {}
 
 
-@spec("tcr_metric_rejects_list", "pyrepseq.metric.tcr_metric:BetaCdr3Levenshtein", lambda m: _call_exc(m.calc_pdist_vector, ["CASSF", "CASF"]))
+@spec("beta_cdr_levenshtein_single_chain", "pyrepseq.metric.tcr_metric:BetaCdrLevenshtein")
 def _():
-    return (), {}
+    df = _tcr_df()[["TRBV", "CDR3B"]]
+    return (), {"cdr2_weight": 4}, "calc_cdist_matrix", (df, df.iloc[:2]), {}
 
 
-def _call_exc(fn, *a):
-    try:
-        return canon(fn(*a))
-    except Exception as e:
-        return f"raised:{type(e).__name__}"
+@spec("tcr_metric_rejects_list", "pyrepseq.metric.tcr_metric:BetaCdr3Levenshtein")
+def _():
+    return (), {}, "calc_pdist_vector", (["CASSF", "CASF"],), {}
 
 
 # ---------------------------------------------------------------- clustering / entropy ----
@@ -697,9 +710,3 @@ def _():
     return (_pair_df(),), {"cbar_kws": {"label": "d", "orientation": "horizontal"}, "linkage_kws": {"method": "complete"}}
 
 
-def _cdr_post(m):
-    a, b = _tcr_df(), _tcr_df(TCR_ROWS[1:4], index=[9, 8, 7])
-    return {"cdist": canon(m.calc_cdist_matrix(a, b)), "a_cols": list(a.columns), "b_cols": list(b.columns)}
-
-
-SPECS["cdr_levenshtein_tables"].post = _cdr_post
